@@ -1,6 +1,7 @@
 package props
 
 import (
+	"go/constant"
 	"go/token"
 	"go/types"
 	"regexp"
@@ -231,6 +232,31 @@ func errorSentinels(p *core.Prog, v ssa.Value) []string {
 			visit(v.X, depth+1)
 		case *ssa.Call:
 			name := p.X(v).Name
+			if name == "fmt.Errorf" && len(v.Call.Args) == 2 {
+				// only what %w wraps is found again by errors.Is
+				if fc, ok := v.Call.Args[0].(*ssa.Const); ok && fc.Value != nil && fc.Value.Kind() == constant.String {
+					args := variadicArgs(p, v.Call.Args[1])
+					ai := 0
+					format := constant.StringVal(fc.Value)
+					for i := 0; i < len(format); i++ {
+						if format[i] != '%' {
+							continue
+						}
+						i++
+						for i < len(format) && strings.ContainsRune("+-# 0123456789.[]*", rune(format[i])) {
+							i++
+						}
+						if i >= len(format) || format[i] == '%' {
+							continue
+						}
+						if format[i] == 'w' && ai < len(args) && args[ai].Val != nil {
+							visit(args[ai].Val, depth+1)
+						}
+						ai++
+					}
+					return
+				}
+			}
 			if name == "fmt.Errorf" || name == "errors.Join" {
 				for _, a := range v.Call.Args {
 					visit(a, depth+1)
@@ -455,6 +481,55 @@ func stringParts(p *core.Prog, e *core.Expr) ([]strPart, bool) {
 		return nil, false
 	}
 	return out, true
+}
+
+// linOf writes an integer expression as a sum of atoms with integer
+// coefficients plus a constant: +, -, constants, len(x) (of a slice
+// expression: high minus low), conversions between integer types. ok is false
+// for anything else at the top; unknown sub-terms become atoms of their own.
+func linOf(e *core.Expr) (coef map[string]int64, k int64, ok bool) {
+	coef = map[string]int64{}
+	var walk func(e *core.Expr, sign int64, depth int) bool
+	walk = func(e *core.Expr, sign int64, depth int) bool {
+		if depth > 12 {
+			return false
+		}
+		if c, isC := e.ConstInt(); isC {
+			k += sign * c
+			return true
+		}
+		switch {
+		case e.Op == "conv" && len(e.Args) == 1:
+			return walk(e.Args[0], sign, depth+1)
+		case e.Op == "bin" && e.Name == "+":
+			return walk(e.Args[0], sign, depth+1) && walk(e.Args[1], sign, depth+1)
+		case e.Op == "bin" && e.Name == "-":
+			return walk(e.Args[0], sign, depth+1) && walk(e.Args[1], -sign, depth+1)
+		case e.Op == "call" && e.Name == "len" && len(e.Args) == 1 && e.Args[0].Op == "slice" && len(e.Args[0].Args) >= 3:
+			sl := e.Args[0]
+			// high (or the length of the sliced value) minus low
+			if sl.Args[2].Name == "_" {
+				if !walk(&core.Expr{Op: "call", Name: "len", Args: []*core.Expr{sl.Args[0]}}, sign, depth+1) {
+					return false
+				}
+			} else if !walk(sl.Args[2], sign, depth+1) {
+				return false
+			}
+			if sl.Args[1].Name != "_" {
+				return walk(sl.Args[1], -sign, depth+1)
+			}
+			return true
+		}
+		coef[e.String()] += sign
+		return true
+	}
+	ok = walk(e, 1, 0)
+	for a, c := range coef {
+		if c == 0 {
+			delete(coef, a)
+		}
+	}
+	return coef, k, ok
 }
 
 // A bWrite is one piece written into a local strings.Builder / bytes.Buffer.
